@@ -37,13 +37,13 @@ fn("fs", 'function fs(a) return string is begin if a then s = "v"; end if; retur
 fn("ft", "function ft(a) return table is begin if a then t = tab(2, 7); end if; if isnull(t) then return 0; end if; return t.count(); end;",
    {"ft(true)": "r=2\n", "ft(false)": "r=0\n"})
 fn("fxi", "function fxi(a) return integer is begin if a > 0 then x = a; end if; return x; end;",
-   {"fxi(5)": "r=5\n", "fxi(0)": "r=null\n", "fxi(7)": "r=7\n", "fxi(int())": "r=null\n"})
+   {"fxi(5)": "r=5\n", "fxi(0)": "r=null\n", "fxi(7)": "r=7\n", "fxi(int())": "r=null\n", "fxi(fxi(5))": "r=5\n", "fxi(fxi(0))": "r=null\n"})
 fn("facc", "function facc(a) return integer is begin if a < 0 then n = 0; end if; if isnull(n) then n = 100; end if; n = n + a; return n; end;",
-   {"facc(1)": "r=101\n", "facc(2)": "r=102\n", "facc(-1)": "r=-1\n"})
+   {"facc(1)": "r=101\n", "facc(2)": "r=102\n", "facc(-1)": "r=-1\n", "facc(facc(1))": "r=201\n"})
 fn("fl", "function fl(a) return integer is begin for i in 1 to 5 loop if i == a then return i * 10; end if; end loop; return -1; end;",
    {"fl(1)": "r=10\n", "fl(3)": "r=30\n", "fl(9)": "r=-1\n"})
 fn("fact", "function fact(n) return integer is begin if n <= 1 then return 1; end if; return n * fact(n - 1); end;",
-   {"fact(1)": "r=1\n", "fact(5)": "r=120\n", "fact(3)": "r=6\n"})
+   {"fact(1)": "r=1\n", "fact(5)": "r=120\n", "fact(3)": "r=6\n", "fact(fact(3))": "r=720\n"})
 fn("fib", "function fib(n) return integer is begin if n < 2 then return n; end if; a = fib(n - 1); b = fib(n - 2); return a + b; end;",
    {"fib(1)": "r=1\n", "fib(6)": "r=8\n", "fib(4)": "r=3\n"})
 fn("od", "function od(n) return boolean is begin return false; end;", {})
@@ -56,7 +56,7 @@ fn("fm", "function fm(t) return integer is begin t.put(0, 99); t.concat(5); retu
 fn("fms", 'function fms(s) return string is begin s.concat("x"); return s; end;',
    {"fms(gs)": "r=abcx\n", 'fms("q")': "r=qx\n"})
 fn("fmi", "function fmi(a) return integer is begin a = a + 1; return a; end;",
-   {"fmi(gi)": "r=8\n", "fmi(1)": "r=2\n"})
+   {"fmi(gi)": "r=8\n", "fmi(1)": "r=2\n", "fmi(fmi(1))": "r=3\n", "fmi(fmi(gi))": "r=9\n"})
 fn("fhe", "function fhe(a) return integer is begin begin if a then raise ea; end if; x = 1; exception when ea then y = 2; end; if isnull(x) then return y; end if; return x; end;",
    {"fhe(true)": "r=2\n", "fhe(false)": "r=1\n"})
 fn("fue", "function fue(a) return integer is begin if a == 1 then x = 5; end if; if a == 2 then raise eu; end if; return x; end;",
@@ -73,15 +73,23 @@ fn("frn", "function frn(a) return integer is begin for i in 1 to 3 loop for j in
    {"frn(4)": "r=22\n", "frn(9)": "r=33\n", "frn(7)": "r=0\n"})
 fn("fo0", 'function fo() return integer is begin return 0; end;', {"fo()": "r=0\n"})
 fn("fo1", 'function fo(a) return integer is begin return 1; end;', {"fo(5)": "r=1\n"})
-fn("fo2", 'function fo(a, b) return integer is begin return 2; end;', {"fo(5, 6)": "r=2\n"})
+fn("fo2", 'function fo(a, b) return integer is begin return 2; end;', {"fo(5, 6)": "r=2\n", "fo(fo(), fo(1))": "r=2\n", "fo(fo(1, 2))": "r=1\n"})
 fn("fp", 'function fp(a) return integer is begin print "fp" a; return a; end;',
-   {"fp(1)": "fp1\nr=1\n", "fp(2)": "fp2\nr=2\n"})
+   {"fp(1)": "fp1\nr=1\n", "fp(2)": "fp2\nr=2\n", "fp(fp(2))": "fp2\nfp2\nr=2\n"})
 fn("fty", 'function fty(a) return undefined is begin if a then v = 1; else v = "s"; end if; return typeof(v); end;',
    {"fty(true)": "r=integer\n", "fty(false)": "r=string\n"})
 fn("fsafe", "function fsafe(a) return integer is begin if a == 1 then $k = 1; end if; if a == 2 then $k = 2; end if; return $k; end;",
    {"fsafe(1)": "r=1\n", "fsafe(2)": "r=2\n", "fsafe(0)": "r=null\n"})
 fn("fnr", "function fnr(a) return integer is begin if a then return 1; end if; x = 2; end;",
    {"fnr(true)": "r=1\n", "fnr(false)": "r=null\n"})
+fn("add", "function add(a, b) return integer is begin return a + b; end;",
+   {"add(1, 2)": "r=3\n", "add(1, add(2, 3))": "r=6\n", "add(add(1, 2), 3)": "r=6\n", "add(10, add(20, add(30, 40)))": "r=100\n",
+    "add(add(1, 2), add(3, 4))": "r=10\n", "add(1, add(2, 1/zero))": "err=DIVIDE_BY_ZERO\n"})
+fn("mark", "function mark(v) return integer is begin if v < 10 then flag = true; end if; if flag then return v + 100; end if; return v; end;",
+   {"mark(5)": "r=105\n", "mark(105)": "r=105\n", "mark(mark(5))": "r=105\n", "mark(mark(105))": "r=105\n"})
+# the same callee reached at several nesting levels
+fn("at", "function at(k, a) return integer is begin if k <= 0 then return fxi(a); end if; return at(k - 1, a); end;",
+   {"at(0, 5)": "r=5\n", "at(3, 5)": "r=5\n", "at(3, 0)": "r=null\n", "at(40, 7)": "r=7\n", "fxi(9)": "r=9\n"})
 fn("farg", "function farg(a, b) return integer is begin if isnull(c) then c = 0; end if; c = c + a * 10 + b; return c; end;", {})
 # farg reads c before assignment lexically -> must be rejected; handled separately
 
@@ -93,6 +101,7 @@ GROUPS = {
     "fx": ["fx"], "fs": ["fs"], "ft": ["ft"], "fxi": ["fxi"], "facc": ["facc"], "fl": ["fl"], "fact": ["fact"], "fib": ["fib"],
     "evod": ["ev", "od2"], "fm": ["fm"], "fms": ["fms"], "fmi": ["fmi"], "fhe": ["fhe"], "fue": ["fue"], "ffa": ["ffa"], "ffe": ["ffe"],
     "fle": ["fle"], "fwe": ["fwe"], "frn": ["frn"], "fo": ["fo0", "fo1", "fo2"], "fp": ["fp"], "fty": ["fty"], "fsafe": ["fsafe"], "fnr": ["fnr"],
+    "add": ["add"], "mark": ["mark"], "at": ["at"],
 }
 
 
@@ -143,15 +152,24 @@ def gen_factory(tier):
             ops = [op_ctx(0), op_run(GLOBALS), op_run(d), op_run("r = g%d(%s); print r;" % (k + 1, "1" if "(a)" in d else "")), op_out(0), op_dump(0, GLOBALS_DUMP)]
             yield Case("i%d" % n, ops, {"kind": "iso", "def": d, "rejected": rejected})
             n += 1
-        # recursion depth
-        rec = "function rec(n) return integer is begin if n <= 1 then return 1; end if; return 1 + rec(n - 1); end;"
-        for d in list(range(250, 262)) + [1, 2, 100, 300, 1000]:
-            for prior in ([], [255], [256], [300, 3]):
+        # recursion depth, reached directly and below k+1 levels of another function, after earlier calls at other levels
+        rec = ("function rec(n) return integer is begin if n <= 1 then return 1; end if; return 1 + rec(n - 1); end; "
+               "function down(k, n) return integer is begin if k <= 0 then return rec(n); end if; return down(k - 1, n); end;")
+        probes = [("rec(%d)" % d, d, d) for d in list(range(250, 262)) + [1, 2, 100, 200, 300, 1000]]
+        for k in (0, 1, 100, 200, 253):
+            for total in (k + 2, 200, 254, 255, 256, 257):
+                nn = total - k - 1
+                if nn >= 1:
+                    probes.append(("down(%d, %d)" % (k, nn), total, nn))
+        priors = [[], ["rec(255)"], ["rec(256)"], ["rec(300)", "rec(3)"], ["down(100, 50)"], ["down(200, 10)"], ["down(100, 155)"], ["down(100, 50)", "rec(200)"],
+                  ["rec(200)", "down(100, 50)"]]
+        for call, total, val in probes:
+            for prior in priors:
                 ops = [op_ctx(0), op_run(rec)]
                 for p in prior:
-                    ops.append(op_run("begin r = rec(%d); exception when others then r = -1; end;" % p))
-                ops += [op_run("r = rec(%d); print r;" % d), op_out(0)]
-                yield Case("r%d" % n, ops, {"kind": "rec", "d": d, "prior": prior})
+                    ops.append(op_run("begin r = %s; exception when others then r = -1; end;" % p))
+                ops += [op_run("r = %s; print r;" % call), op_out(0)]
+                yield Case("r%d" % n, ops, {"kind": "rec", "call": call, "total": total, "val": val, "prior": prior})
                 n += 1
     return gen
 
@@ -203,13 +221,13 @@ def check(case, res):
         return vs, True
     if m["kind"] == "rec":
         run, out = st[-2], text(st[-1])
-        d = m["d"]
-        if d <= 255:
-            if run.get("r") != "ok" or out != "%d\n" % d:
-                vs.append(Violation("recursion:depth<=255", "rec(%d) after %s gave %s %r" % (d, m["prior"], run, out), case))
+        if m["total"] <= 255:
+            if run.get("r") != "ok" or out != "%d\n" % m["val"]:
+                vs.append(Violation("recursion:depth<=255", "%s (%d nested calls) after %s gave %s %r" % (m["call"], m["total"], m["prior"], run, out), case))
         else:
             if run.get("r") != "rerr" or run.get("no") != 31:
-                vs.append(Violation("recursion:limit", "rec(%d) after %s gave %s %r, expected the recursion-limit error" % (d, m["prior"], run, out), case))
+                vs.append(Violation("recursion:limit", "%s (%d nested calls) after %s gave %s %r, expected the recursion-limit error" % (
+                    m["call"], m["total"], m["prior"], run, out), case))
         return vs, True
     return vs, False
 
@@ -219,6 +237,6 @@ def run(tier):
     res = explore(PROP + "-" + tier, gen_factory(tier), check, chunk=100, deadline=t0 + (2400 if tier == "thorough" else 420))
     rule = ("for each of %d function groups and each probe call, all histories of <= %d earlier calls over the group's call alphabet (including calls "
             "that fail inside and calls whose argument evaluation fails); oracle: probe result = same call in a fresh context = model value; caller "
-            "variables unchanged; caller names rejected in bodies; recursion depths 250..261 and beyond after earlier deep calls; LeakSanitizer after "
+            "variables unchanged; caller names rejected in bodies; recursion depths 250..261 and beyond, reached directly and below 1..254 levels of another function, after earlier deep calls at other levels; calls nested in their own argument lists; LeakSanitizer after "
             "histories with failing calls. Non-trivial: every case executes at least one call" % (len(GROUPS), 5 if tier == "thorough" else 3))
     return finish(PROP, tier, res, check, rule, t0, assumptions=["hand-written expected values per call", "LeakSanitizer (clang 14)"])
